@@ -200,6 +200,9 @@ def run_case(case):
                 # data-dependent (weights summing to zero): a lazy array cannot raise at call time
                 raise AssertionError("numpy ZeroDivisionError: reference undefined")
             except (ValueError, IndexError, TypeError) as e:
+                if "All-NaN" in str(e) and "index" in case:
+                    # data dependent, and the index on top may cull the all-NaN slice from the lazy computation
+                    raise AssertionError("numpy All-NaN error under an index: reference undefined")
                 np_exc = e
     if np_exc is None and np.asarray(exp).dtype.kind in "fc" and a.dtype.kind in "iufcb":
         with np.errstate(all="ignore"):
@@ -285,16 +288,22 @@ def case_strategy(draw):
     D_ = D(draw)
     rank = D_.weighted([(1, 4), (2, 5), (3, 3), (4, 1)])
     long_axis = D_.int(0, rank - 1)
+    # 1 in 4 (rank >= 2): a second axis with many blocks, so per-axis fan-ins need different tree depths
+    second_long = D_.choice([ax for ax in range(rank) if ax != long_axis]) if rank >= 2 and D_.chance(1, 4) else None
     shape = []
     for ax in range(rank):
         if ax == long_axis:
-            shape.append(D_.int(3, 34))
+            shape.append(D_.int(3, 34) if second_long is None else D_.int(3, 12))
+        elif ax == second_long:
+            shape.append(D_.int(3, 12))
         else:
             shape.append(D_.weighted([(0, 1), (1, 3), (2, 4), (3, 4), (4, 2)]))
     chunks = []
     for ax, n in enumerate(shape):
         if ax == long_axis:
-            chunks.append(list(gchunks.axis_chunks(D_, n, family=D_.choice(["ones", "uniform", "irregular", "jitter", "uniform"]), max_blocks=17)))
+            chunks.append(list(gchunks.axis_chunks(D_, n, family=D_.choice(["ones", "uniform", "irregular", "jitter", "uniform"]), max_blocks=17 if second_long is None else 9)))
+        elif ax == second_long:
+            chunks.append(list(gchunks.axis_chunks(D_, n, family=D_.choice(["ones", "uniform", "irregular"]), max_blocks=9)))
         else:
             chunks.append(list(gchunks.axis_chunks(D_, n, max_blocks=3)))
     fam = D_.weighted([("plain", 8), ("nan", 5), ("arg", 4), ("other", 4)])
@@ -317,7 +326,7 @@ def case_strategy(draw):
     if red in ARGS or red == "topk":
         kinds = [("int", 6)] + ([("none", 2)] if red in ARGS else [])
     else:
-        kinds = [("none", 2), ("int", 5), ("tuple", 3)]
+        kinds = [("none", 2), ("int", 5), ("tuple", 3)] if second_long is None else [("none", 3), ("int", 1), ("tuple", 6)]
     k = D_.weighted(kinds)
     if k == "none":
         axis = None
@@ -329,6 +338,8 @@ def case_strategy(draw):
         axes = set(D_.subset(range(rank), 1))
         if D_.chance(2, 3):
             axes.add(long_axis)
+        if second_long is not None:
+            axes |= {long_axis, second_long}
         axis = sorted(axes)
     case["axis"] = axis
     if red == "average":
@@ -348,10 +359,12 @@ def case_strategy(draw):
         kk = D_.int(1, max(1, n))
         case["k"] = kk if D_.chance(2, 3) else -kk
     if red not in ("count_nonzero", "ptp", "average"):
-        se = D_.weighted([(None, 3), (2, 4), (3, 2), (4, 1), ("dict", 2)])
+        se = D_.weighted([(None, 3), (2, 4), (3, 2), (4, 1), ("dict", 2 if second_long is None else 9)])
         if se == "dict":
-            axs = range(rank) if axis is None else ([axis % rank] if isinstance(axis, int) else axis)
+            axs = list(range(rank)) if axis is None else ([axis % rank] if isinstance(axis, int) else list(axis))
             se = {str(ax): D_.choice([2, 3, 4]) for ax in axs}
+            if len(se) >= 2 and D_.chance(1, 3):
+                se.pop(str(D_.choice(axs)))  # an axis left out of the dict gets the default fan-in
         if se is not None:
             case["split_every"] = se
     # alternative chunkings of the same data
